@@ -727,4 +727,76 @@ theorem prefixDart_eval (e : Env) (sc : Scope) (delim : Str) (h : PlainScope sc 
       simp [dolAux, eval]
 
 
+/-! ## Binding of arguments to parameters, forwarding -/
+
+
+theorem lookupVal_cons_self (v a : Str) (env : List (Str × Str)) : lookupVal ((v, a) :: env) v = a := by
+  simp [lookupVal, List.lookup]
+
+theorem lookupVal_cons_ne (v a n : Str) (env : List (Str × Str)) (h : n ≠ v) :
+    lookupVal ((v, a) :: env) n = lookupVal env n := by
+  have : (n == v) = false := by simpa using h
+  simp [lookupVal, List.lookup, this]
+
+/-- Binding the i-th value to the i-th (distinct) name and reading the names back in order
+returns the values: a call is the identity on the argument list. -/
+theorem map_lookup_zip (vars vals : List Str) (hnd : vars.Nodup) (hl : vals.length = vars.length) :
+    vars.map (lookupVal (vars.zip vals)) = vals := by
+  induction vars generalizing vals with
+  | nil => cases vals with
+    | nil => rfl
+    | cons a as => simp at hl
+  | cons v vs ih =>
+    cases vals with
+    | nil => simp at hl
+    | cons a as =>
+      rw [List.nodup_cons] at hnd
+      simp only [List.length_cons, Nat.add_right_cancel_iff] at hl
+      simp only [List.zip_cons_cons, List.map_cons, lookupVal_cons_self]
+      congr 1
+      have : vs.map (lookupVal ((v, a) :: vs.zip as)) = vs.map (lookupVal (vs.zip as)) := by
+        apply List.map_congr_left
+        intro n hn
+        exact lookupVal_cons_ne v a n _ (fun e => hnd.1 (e ▸ hn))
+      rw [this, ih as hnd.2 hl]
+
+theorem runChain_identity (l : Lang) (e : Entry) (vars args : List Str) (hnd : vars.Nodup)
+    (hl : args.length = vars.length) : runChain (chain l e vars) args = args := by
+  cases l <;> cases e <;> simp [chain, runChain, map_lookup_zip vars args hnd hl]
+
+theorem reachVals_identity (l : Lang) (e : Entry) (vars args : List Str) (hnd : vars.Nodup)
+    (hl : args.length = vars.length) : reachVals l e vars args = args := by
+  unfold reachVals
+  rw [runChain_identity l e vars args hnd hl, map_lookup_zip vars args hnd hl]
+
+/-- reading a value back through the binding: position of the name -/
+theorem lookup_zip_getElem (vars vals : List Str) (hnd : vars.Nodup) (hl : vals.length = vars.length)
+    (i : Nat) (hi : i < vars.length) :
+    lookupVal (vars.zip vals) vars[i] = vals[i]'(hl ▸ hi) := by
+  have h := map_lookup_zip vars vals hnd hl
+  have := congrArg (fun l => l[i]?) h
+  simp only [List.getElem?_map, List.getElem?_eq_getElem hi, Option.map_some] at this
+  rw [List.getElem?_eq_getElem (hl ▸ hi)] at this
+  exact Option.some.inj this
+
+/-- Why the harness uses pairwise different values: if a forwarding call passes the names in ANY
+other order / with a name repeated or replaced (a list `fwd` of declared names, of the right
+length, different from the declaration order), the callee receives a different value list. -/
+theorem forwarding_detected (vars vals fwd : List Str) (hnd : vars.Nodup) (hv : vals.Nodup)
+    (hl : vals.length = vars.length) (hf : fwd.length = vars.length) (hmem : ∀ n ∈ fwd, n ∈ vars)
+    (heq : fwd.map (lookupVal (vars.zip vals)) = vals) : fwd = vars := by
+  apply List.ext_getElem hf
+  intro i h1 h2
+  have hi : i < vals.length := hl ▸ h2
+  -- fwd[i] is some vars[j]
+  obtain ⟨j, hj, hji⟩ := List.getElem_of_mem (hmem fwd[i] (List.getElem_mem h1))
+  have e1 : (fwd.map (lookupVal (vars.zip vals)))[i]'(by simpa using h1) = vals[i] := by
+    simp only [heq]
+  simp only [List.getElem_map] at e1
+  rw [← hji, lookup_zip_getElem vars vals hnd hl j hj] at e1
+  have : j = i := (List.getElem_inj hv).1 e1
+  subst this
+  exact hji.symm
+
+
 end FV.Topic
